@@ -12,6 +12,7 @@ The Python side contains no oracle logic: it serialises what the implementation 
 import fcntl
 import hashlib
 import json
+import logging
 import os
 import random
 import re
@@ -151,6 +152,14 @@ def _alarm(signum, frame):
 def guarded_observe(mod, ctx, inp):
     """mod.observe(ctx, inp) under a CPU-time limit; returns (case, hung)."""
     _hang["fired"] = False
+    # Every second case runs with DEBUG logging enabled for the library's loggers (records go to a NullHandler), the way an
+    # application run with -v has it: whatever the library evaluates only when debugging is on must not change a result.
+    _hang["case"] = _hang.get("case", 0) + 1
+    lg = logging.getLogger("stingray")
+    if not any(isinstance(h, logging.NullHandler) for h in lg.handlers):
+        lg.addHandler(logging.NullHandler())
+        lg.propagate = False
+    lg.setLevel(logging.DEBUG if _hang["case"] % 2 else logging.WARNING)
     old_p = signal.signal(signal.SIGPROF, _alarm)
     old_r = signal.signal(signal.SIGALRM, _alarm)
     signal.setitimer(signal.ITIMER_PROF, CASE_TIMEOUT)
